@@ -635,6 +635,17 @@ pub mod implementations {
             bail!("expected 1 parameter (index into local operating stack), or * to print all");
         };
 
+        #[cfg(mscript_verif)]
+        if arg == "*" && crate::verif::typed_print_enabled() {
+            let rendered: Vec<String> = ctx
+                .get_local_operating_stack()
+                .iter()
+                .map(|var| format!("{}{var}", crate::verif::kind_tag(var)))
+                .collect();
+            println!("{}", rendered.join(", "));
+            return Ok(());
+        }
+
         if arg == "*" {
             let Some(first) = ctx.get_nth_op_item(0) else {
                 println!();
